@@ -367,7 +367,10 @@ impl<'a> Exec<'a> {
 
     fn retire_disk(&mut self) {
         let st = self.disk.borrow();
-        if (0..3).any(|k| st.stats.hard_transient[k] != 0 || st.stats.hard_persistent[k] != 0) || st.stats.storage_full != 0 {
+        if [1usize, 2].iter().any(|&k| st.stats.hard_transient[k] != 0 || st.stats.hard_persistent[k] != 0)
+            || st.stats.hard_persistent[0] != 0
+            || st.stats.storage_full != 0
+        {
             self.any_hard_fault_non_flush = true;
         }
         self.carry_ord = st.ord;
@@ -1409,7 +1412,11 @@ impl<'a> Exec<'a> {
             let only_flush_faults = {
                 let d = self.disk.borrow();
                 let st = &d.stats;
-                (0..3).all(|k| st.hard_transient[k] == 0 && st.hard_persistent[k] == 0) && st.storage_full == 0 && !self.any_hard_fault_non_flush
+                // faults on the medium's flush or reads do not excuse a write; write or seek faults end the claim
+                [1usize, 2].iter().all(|&k| st.hard_transient[k] == 0 && st.hard_persistent[k] == 0)
+                    && st.hard_persistent[0] == 0
+                    && st.storage_full == 0
+                    && !self.any_hard_fault_non_flush
             };
             if self.cfg.oracles && (!self.tainted || only_flush_faults) && (!self.faults_in_play() || only_flush_faults) && self.session_clean {
                 let (writes, same) = {
